@@ -244,6 +244,10 @@ func checkC01(c *Ctx, w *World) {
 		eqAtom("cmdBOUND", cmdValue, constIs(pl.BOUND)),
 		eqAtom("cmdUNBIND", cmdValue, constIs(pl.UNBIND)),
 		eqAtom("cmdBIND", cmdValue, constIs(pl.BIND)),
+		lenZeroAtom("noSlots", func(v ssa.Value) bool {
+			call, ok := stripConv(v).(*ssa.Call)
+			return ok && calleeOf(&call.Call).Builtin == "len" && isLoadOf(call.Call.Args[0], "gcpPicker.scRefs")
+		}),
 	}
 	pcs := newCondSpace(pl.pick, recOf(pAtoms...), atomNames(pAtoms...)...)
 	pcs.ExclusiveAtoms("cmdBOUND", "cmdUNBIND", "cmdBIND")
@@ -257,8 +261,11 @@ func checkC01(c *Ctx, w *World) {
 	for _, call := range extr {
 		// the command tested must be the one of the configured method (no zero default inside the guard)
 		want := pcs.And(pcs.Atom("configured"), pcs.Atom("hasCtx"), pcs.Or(pcs.Atom("cmdBOUND"), pcs.Atom("cmdUNBIND")))
-		// reach relative to the part of Pick after the empty-snapshot guard
-		eq, wit := pcs.Equiv(pcs.OnlyNamed(pcs.Reach(call)), want)
+		// … past the empty-snapshot guard, if Pick has one; "⇐" is universal: no further condition may prevent the extraction
+		if pcs.Seen("noSlots") {
+			want = pcs.And(pcs.Not(pcs.Atom("noSlots")), want)
+		}
+		eq, wit := pcs.EquivStrict(pcs.Reach(call), want)
 		c.check(eq, "C01.extract", "request key extraction: condition", p.ipos(call), "performed ⇔ method configured ∧ interceptor context present ∧ command ∈ {BOUND, UNBIND}", "request key is not extracted exactly for configured BOUND/UNBIND calls: "+wit)
 		f, base, isL := loadedField(call.Call.Args[1])
 		locOK := false
